@@ -1118,6 +1118,7 @@ struct XGen<'a> {
     rng: &'a mut Rng,
     next: u32,
     generator: bool,
+    first_line_as_ok: bool,
 }
 
 impl<'a> XGen<'a> {
@@ -1189,7 +1190,11 @@ impl<'a> XGen<'a> {
     /// locals), `frozen`: loop counters that must not be assigned
     fn lines(&mut self, ints: &mut Vec<u32>, funs: &mut Vec<(u32, usize)>, frozen: &[u32], fn_depth: u32, depth: u32, n: usize) -> Vec<XN> {
         let mut out = vec![];
-        for _ in 0..n {
+        // F-C02-6 (known): an `as` rebind in the first line of a block body discards a pending
+        // read of the block header; function bodies (`first_line_as_ok`) start with nothing pending
+        let first_as_ok = self.first_line_as_ok;
+        self.first_line_as_ok = false;
+        for line_no in 0..n {
             let assignable: Vec<u32> = ints.iter().copied().filter(|x| !frozen.contains(x)).collect();
             let block_ok = depth > 0;
             let k = self.rng.weighted(&[
@@ -1320,7 +1325,7 @@ impl<'a> XGen<'a> {
                         let cands: Vec<u32> = assignable.iter().copied().filter(|x| !used.contains(x)).collect();
                         let x = if !cands.is_empty() && self.rng.chance(2, 3) { cands[self.rng.below(cands.len())] } else { self.fresh() };
                         used.push(x);
-                        ts.push(match self.rng.below(3) {
+                        ts.push(match self.rng.below(if line_no == 0 && !first_as_ok { 2 } else { 3 }) {
                             0 => XT::Id(x),
                             1 => XT::Short(x),
                             _ => XT::As(x),
@@ -1353,6 +1358,7 @@ impl<'a> XGen<'a> {
                     let was_gen = self.generator;
                     self.generator = false;
                     let n1 = 1 + self.rng.below(3);
+                    self.first_line_as_ok = true;
                     let mut body = self.lines(&mut i1, &mut funs.clone(), &[], fn_depth - 1, 1, n1);
                     body.push(self.ex(&mut i1, funs, &[], 1, false));
                     self.generator = was_gen;
@@ -1428,7 +1434,7 @@ fn gen_capx(rng: &mut Rng) -> CapxCase {
     next += 1;
     let f = next;
     let generator = rng.chance(1, 4);
-    let mut g = XGen { rng, next, generator };
+    let mut g = XGen { rng, next, generator, first_line_as_ok: true };
     let mut ints: Vec<u32> = outer.iter().map(|p| p.0).chain(params.iter().copied()).collect();
     let mut funs = vec![];
     let n = 2 + g.rng.below(5);
